@@ -23,6 +23,11 @@ MIRROR = {"MATRIX": "matrix", "DVECTOR": "dvector", "UIVECTOR": "uivector", "IVE
           "TENSOR": "tensor", "DVECTLIST": "dvectorlist"}
 
 
+# fields that the binding deliberately names differently from the C member they mirror (pinned tree); every other
+# field must carry the C member's name, so that swapping two same-typed members on either side is seen
+NAME_ALIAS = {("DVECTLIST", "dvector"): "d"}
+
+
 class TypeErr(Exception):
     pass
 
@@ -193,6 +198,9 @@ def generate(repo_src, cfgdir, workdir, out_c):
                 cfn = cf[i]
                 obl.append(("struct %s.field%d.offset" % (cls, i), "offsetof(%s, %s) == %d" % (cname, cfn, off),
                             "%s.%s (ctypes offset %d) vs %s.%s" % (cls, fname, off, cname, cfn)))
+                obl.append(("struct %s.field%d.name" % (cls, i),
+                            "1" if NAME_ALIAS.get((cls, fname), fname) == cfn else "0",
+                            "%s field %d is '%s', C member %d of %s is '%s'" % (cls, i, fname, i, cname, cfn)))
                 obl.append(("struct %s.field%d.type" % (cls, i),
                             "__builtin_types_compatible_p(__typeof__(((%s *)0)->%s), %s)" % (cname, cfn, spell),
                             "%s.%s : %s vs C field %s.%s" % (cls, fname, spell, cname, cfn)))
